@@ -23,6 +23,44 @@ Stride  == 64
 VARIABLE i
 
 Crv(k) == [F |-> Fields[CurvesJ[k].f], a |-> CurvesJ[k].a, b |-> CurvesJ[k].b]
+
+(***************************************************************************)
+(* Binding of the transcription ProjFormulas.tla to the code (C13): over   *)
+(* prime fields the RAW coordinates returned by the real functions equal   *)
+(* the transcribed polynomial expressions, coordinate by coordinate, on    *)
+(* the control path the code takes.  (MC_ProjIdentities.tla proves those   *)
+(* expressions equal the affine law as identities over the integers.)      *)
+(***************************************************************************)
+PF(q) == INSTANCE ProjFormulas WITH P <- q
+C1(R, k) == R[k][1]                                   \* coordinate k of a raw triple over a prime field
+Raw3(x, y, z) == <<<<x>>, <<y>>, <<z>>>>
+RawOK(r) ==
+  LET q == Fields[CurvesJ[r.c].f].p IN
+  IF Fields[CurvesJ[r.c].f].d # 1 THEN TRUE
+  ELSE CASE r.op = "double" /\ r.rep = "proj" ->
+              r.r = Raw3(PF(q)!DblX(C1(r.P, 1), C1(r.P, 2), C1(r.P, 3)), PF(q)!DblY(C1(r.P, 1), C1(r.P, 2), C1(r.P, 3)),
+                         PF(q)!DblZ(C1(r.P, 1), C1(r.P, 2), C1(r.P, 3)))
+         [] r.op = "add" /\ r.rep = "proj" ->
+              LET x1 == C1(r.P, 1) y1 == C1(r.P, 2) z1 == C1(r.P, 3) x2 == C1(r.Q, 1) y2 == C1(r.Q, 2) z2 == C1(r.Q, 3) IN
+              (z1 # 0 /\ z2 # 0 /\ PF(q)!AddV(x1, y1, z1, x2, y2, z2) # 0) =>         \* the generic branch
+                 r.r = Raw3(PF(q)!AddX(x1, y1, z1, x2, y2, z2), PF(q)!AddY(x1, y1, z1, x2, y2, z2), PF(q)!AddZ(x1, y1, z1, x2, y2, z2))
+         [] r.op = "pline" ->
+              LET x1 == C1(r.P, 1) y1 == C1(r.P, 2) z1 == C1(r.P, 3) x2 == C1(r.Q, 1) y2 == C1(r.Q, 2) z2 == C1(r.Q, 3)
+                  xt == C1(r.T, 1) yt == C1(r.T, 2) zt == C1(r.T, 3)
+                  md == PF(q)!AddV(x1, y1, z1, x2, y2, z2)           \* x2 z1 - x1 z2
+                  mn == PF(q)!AddU(x1, y1, z1, x2, y2, z2)           \* y2 z1 - y1 z2
+              IN IF md # 0 THEN r.r = <<<<PF(q)!LineChordN(x1, y1, z1, x2, y2, z2, xt, yt, zt)>>,
+                                        <<PF(q)!LineChordD(x1, y1, z1, x2, y2, z2, xt, yt, zt)>>>>
+                 ELSE IF mn = 0 THEN r.r = <<<<PF(q)!LineTanN(x1, y1, z1, xt, yt, zt)>>, <<PF(q)!LineTanD(x1, y1, z1, xt, yt, zt)>>>>
+                 ELSE r.r = <<<<PF(q)!LineVertN(x1, z1, xt, zt)>>, <<PF(q)!LineVertD(z1, zt)>>>>
+         [] r.op = "jdouble" ->
+              C1(r.P, 2) # 0 => r.r = Raw3(PF(q)!JDblX(C1(r.P, 1), C1(r.P, 2), C1(r.P, 3)), PF(q)!JDblY(C1(r.P, 1), C1(r.P, 2), C1(r.P, 3)),
+                                          PF(q)!JDblZ(C1(r.P, 1), C1(r.P, 2), C1(r.P, 3)))
+         [] r.op = "jadd" ->
+              LET x1 == C1(r.P, 1) y1 == C1(r.P, 2) z1 == C1(r.P, 3) x2 == C1(r.Q, 1) y2 == C1(r.Q, 2) z2 == C1(r.Q, 3) IN
+              (y1 # 0 /\ y2 # 0 /\ PF(q)!JAddH(x1, y1, z1, x2, y2, z2) # 0) =>
+                 r.r = Raw3(PF(q)!JAddX(x1, y1, z1, x2, y2, z2), PF(q)!JAddY(x1, y1, z1, x2, y2, z2), PF(q)!JAddZ(x1, y1, z1, x2, y2, z2))
+         [] OTHER -> TRUE
 B2N(b) == IF b THEN 1 ELSE 0
 
 \* well-formedness of a raw value in its representation: canonical coefficients
@@ -107,5 +145,5 @@ Spec == Init /\ [][Next]_i
 CurvesOK == i = 0 => \A k \in 1..Len(CurvesJ) : CurveOK(k)
 ClaimsOK == i = 0 => \A k \in 1..Len(Claims) : ClaimOK(Claims[k])
 \* an exception where a value is specified is a rejected row (exc is "" when none was raised)
-RowsOK   == i > 0 => (Rows[i].exc = "" /\ RowOK(Rows[i]))
+RowsOK   == i > 0 => (Rows[i].exc = "" /\ RowOK(Rows[i]) /\ RawOK(Rows[i]))
 =============================================================================
